@@ -96,3 +96,34 @@ Proof.
   induction a as [|x a IH]; intros [|y b]; cbn; try discriminate; [reflexivity|].
   rewrite andb_true_iff. intros [E H]. apply String.eqb_eq in E. subst. f_equal. now apply IH.
 Qed.
+
+(** the control-channel cipher is installed under the released condition on both ends: always, except for
+    internal ssh-tunnel sessions (client: connEncrypted := true, set false only for clientSpec.Type ==
+    "ssh-tunnel"; server: NewControl(..., !internal, ...)).  Any further condition on one end (a transport,
+    a TLS flag) makes builds of the same protocol version unable to talk in that combination. *)
+Fixpoint pairs_eqb (a b : list (string * string)) : bool :=
+  match a, b with
+  | [], [] => true
+  | (x, y) :: a', (x', y') :: b' => String.eqb x x' && String.eqb y y' && pairs_eqb a' b'
+  | _, _ => false
+  end.
+Definition conn_enc_released_client : list (string * string) :=
+  [("", "true"); ("svr.clientSpec != nil && svr.clientSpec.Type == ""ssh-tunnel""", "false")]%string.
+Definition conn_enc_ok (cl : list (string * string)) (sv : list string) : bool :=
+  pairs_eqb cl conn_enc_released_client && strs_eqb sv ["!internal"%string].
+Lemma pairs_eqb_eq a : forall b, pairs_eqb a b = true -> a = b.
+Proof.
+  induction a as [|[x y] a IH]; intros [|[x' y'] b]; cbn; try discriminate; [reflexivity|].
+  rewrite !andb_true_iff. intros [[E1 E2] H]. apply String.eqb_eq in E1, E2. subst. f_equal. now apply IH.
+Qed.
+Lemma strs_eqb_eq a : forall b, strs_eqb a b = true -> a = b.
+Proof.
+  induction a as [|x a IH]; intros [|y b]; cbn; try discriminate; [reflexivity|].
+  rewrite andb_true_iff. intros [E H]. apply String.eqb_eq in E. subst. f_equal. now apply IH.
+Qed.
+Lemma conn_enc_ok_sound cl sv :
+  conn_enc_ok cl sv = true -> cl = conn_enc_released_client /\ sv = ["!internal"%string].
+Proof.
+  unfold conn_enc_ok. rewrite andb_true_iff. intros [H1 H2].
+  split; [now apply pairs_eqb_eq|now apply strs_eqb_eq].
+Qed.
